@@ -315,6 +315,12 @@ func (w *c09World) onReset(st *c09Stream) {
 				break
 			}
 		}
+		for _, q := range st.reqs {
+			if q.end <= st.b.Delivered && q.silent() && c09LongestID(q.msg) >= c09MaxPeerRecord {
+				s.Count("probe_overlong_id_ap_refused") // c09_ids.go
+				break
+			}
+		}
 		return
 	}
 	switch {
@@ -354,6 +360,9 @@ func (w *c09World) onResponse(st *c09Stream, frame []byte) {
 		return
 	}
 	r.answered = true
+	if c09LongestID(r.msg) >= c09MaxPeerRecord {
+		s.Count("probe_overlong_id_request_answered") // c09_ids.go
+	}
 	nprov := fmt.Sprint(len(resp.GetProviderPeers()))
 	if w.bigKey != nil && bytes.Equal(r.msg.GetKey(), w.bigKey) {
 		nprov = "bulk"
